@@ -13,14 +13,17 @@ def sh(cmd, cwd=None, timeout=1800):
     return p.returncode, (p.stdout + p.stderr)
 
 ALL = [f"C{i:02d}" for i in range(1, 21)]
+ROUND = int(os.environ.get("BENIGN_ROUND", "1"))
+R = "" if ROUND == 1 else str(ROUND)
+OFFSET = 3 * (ROUND - 1)
 base = {}
 for P in [a for a in sys.argv[1:] if not a.startswith("--")]:
-    out, wt = f"/tmp/ben_{P}", f"/tmp/wb_{P}"
+    out, wt = f"/tmp/ben{R}_{P}", f"/tmp/wb{R}_{P}"
     for I in range(1, 10):
         diff = f"{out}/refactor_{I}.diff"
         if not os.path.exists(diff):
             continue
-        sid = f"{P}-b{I}"
+        sid = f"{P}-b{I + OFFSET}"
         sh("git checkout -q -- . ; git clean -fdq", wt)
         rc0, o0 = sh(f"PYTHONPATH={wt} /venv/bin/python {out}/equiv_{I}.py", wt)
         rc_apply, _ = sh(f"git apply {diff}", wt)
